@@ -76,10 +76,14 @@ Proof. exact plain_example. Qed.
 
 (* ---- text between active syntax (Proofs/LexRound.v): in a source that spells a checked list of
    items, every text run between {{ }} blocks and directives - any bytes but NUL, line feeds and
-   backslashes included - is one HTML token whose literal is the run itself (place gives an item's
-   literal as its spelling unless it is a string); comments {{-- ... --}} before any such item and at
-   the end of the source yield no token, whatever they hold short of the terminator (a gap of the
-   item: the check gap_html finds each comment's end with the specification's find_term) *)
+   backslashes included - is one HTML token whose literal is the run with its escapes removed
+   (Spec/LexSpell.unesc: a backslash directly before "{{" or before a directive keyword goes, every
+   other byte stays; the check text_scan asks that "{{" and directive keywords start inside a run only
+   directly after such a backslash and lie wholly inside it); comments {{-- ... --}} before any such
+   item and at the end of the source yield no token, whatever they hold short of the terminator (a
+   gap of the item: the check gap_html finds each comment's end with the specification's find_term).
+   So escapes and live syntax in ONE source are covered: "\{{ x }} is {{ x }}" lexes to the text
+   "{{ x }} is ", then the block. *)
 From TW Require Import LexRound.
 
 Theorem C05_text_between_syntax_is_kept its tg :
@@ -93,3 +97,63 @@ Example C05_text_between_syntax_example :
   in_domain (bs ("a < b > c {{ x }} 100% }} { @ me@x.org" ++ nl ++ "c:\dir \ @if(y) <p class='q'>" ++ nl ++ nl ++ " @end tail" ++ nl)) = true /\
   in_domain (bs ("{{-- {{ 1 }} @if(x) -- }} --}}a{{-- b --}}{{--}}{{ x }}{{-- c" ++ nl ++ "d --}}")) = true.
 Proof. vm_compute. split; reflexivity. Qed.
+
+(* escapes next to live syntax: the source is in the domain, and its first token is the text with
+   the backslashes of the two escapes gone and the plain backslash kept *)
+Example C05_escapes_beside_live_syntax :
+  in_domain (bs "\{{ x }} and \@if(y) c:\dir is {{ x }} @if(y)z@end \@end") = true /\
+  option_map (fun ts => map tlit (firstn 2 ts)) (lex_all (bs "\{{ x }} and \@if(y) c:\dir is {{ x }}")) =
+    Some [bs "{{ x }} and @if(y) c:\dir is "; bs "{{"].
+Proof. vm_compute. split; reflexivity. Qed.
+
+(* ---- from the bytes to the output, escapes and live syntax side by side (Proofs/LinesPipeline.v on
+   top of the round trip): the text nodes of the statement tree hold the runs with their escapes
+   removed, and that is what is written *)
+From TW Require Import Floats Values Expr Template Control ExprSem CleanValues TemplateRefine Pratt StmtParse TemplatePipeline LineIrrelevance LinesPipeline.
+
+Theorem C05_from_source_bytes_to_output its ss ns eof fs gd (data : list (bytes * value)) :
+  source_ok its = true -> place (spell its) 0 its = flats ss ++ [eof] -> wf_ss ss -> DensL ss ns ->
+  env_from_map gd = EnvOk [data] ->
+  forallb (fun kv : bytes * value => clean (snd kv)) data = true -> nodes_ok ns ->
+  lex_all (spell its) = Some (flats ss ++ [eof]) /\
+  parse_source (spell its) = ParsedOk (mkProgram (asts ss) None [] [] []) /\
+  exists K, (K <= eval_fuel)%nat ->
+    match run_nodes model_call_spec fs [data] ns with
+    | TOk out SigNormal _ => evaluate_string cx0 (spell its) gd = RenderOk out
+    | TOk _ _ _ => True
+    | TFail => exists ln msg, evaluate_string cx0 (spell its) gd = RenderErr ln msg
+    | TNoFuel | TUnprintable => True
+    end.
+Proof. exact (source_renders_lines its ss ns eof fs gd data). Qed.
+Print Assumptions C05_from_source_bytes_to_output.
+
+Definition esc_src : string := "\{{ x }} is {{ x }}, \@if(x) c:\dir".
+
+Example C05_escaped_and_live_in_one_template :
+  let ns := [NText (bs "{{ x }} is "); NPrint (XVar (bs "x")); NText (bs ", @if(x) c:\dir")] in
+  exists its tg ss eof,
+    lex_all (bs esc_src) = Some (flats ss ++ [eof]) /\ unlex (bs esc_src) 0 (flats ss ++ [eof]) = (its, tg) /\
+    spell its = bs esc_src /\ source_ok its = true /\ place (spell its) 0 its = flats ss ++ [eof] /\
+    wf_ss ss /\ DensL ss ns /\ nodes_ok ns /\
+    evaluate_string cx0 (bs esc_src) [(bs "x", GInt 5)] = RenderOk (bs "{{ x }} is 5, @if(x) c:\dir").
+Proof.
+  intro ns.
+  destruct (lex_all (bs esc_src)) as [ts|] eqn:E; [|vm_compute in E; discriminate E].
+  vm_compute in E. injection E as <-.
+  match goal with |- exists its tg ss eof, Some (?t1 :: ?lb :: ?v :: ?rb :: ?t2 :: ?eoft :: nil) = _ /\ _ =>
+    set (ss0 := [TText t1; TCode lb rb (CAtom v); TText t2]); set (e0 := eoft) end.
+  destruct (unlex (bs esc_src) 0 (flats ss0 ++ [e0])) as [its tg] eqn:U.
+  exists its, tg, ss0, e0.
+  split; [reflexivity|]. split; [exact U|].
+  vm_compute in U. injection U as <- <-.
+  split; [vm_compute; reflexivity|]. split; [vm_compute; reflexivity|]. split; [vm_compute; reflexivity|].
+  split.
+  { subst ss0. cbn [wf_ss wf_s wf wf_list_with llev rlev]. unfold tprec, INF. cbn [ttype].
+    repeat split; try reflexivity; try discriminate; try (vm_compute; lia). }
+  split.
+  { subst ns ss0. apply LsCons; [apply DenL_text; vm_compute; reflexivity|].
+    apply LsCons; [apply LCode; cbn; repeat split|].
+    apply LsCons; [apply DenL_text; vm_compute; reflexivity|apply LsNil]. }
+  split; [subst ns; cbn; repeat split|].
+  vm_compute. reflexivity.
+Qed.
